@@ -321,6 +321,43 @@ def assign_gpu_config():
     return Config('all stimulus values', contract, setup, None)
 
 
+# ------------------------------------------------------------------------------------------------------------ ppo_to_ppi_gpu (one thread)
+def ppo_to_ppi_gpu_config():
+    """one thread (x = lane, y = port): for a state element (y >= number of primary ports) inside the array with a mapped output slot the assignment rows become
+    (previous final, time, sampled capture); every other thread writes nothing -- the element-wise statement of WaveSim.s_ppo_to_ppi"""
+    def setup(ex):
+        st = State()
+        x, y = ex.fv('x', 'int'), ex.fv('y', 'int')
+        nsims, s_len, nlocs = ex.fv('nsims', 'int'), ex.fv('s_len', 'int'), ex.fv('c_locs_len', 'int')
+        ppi, ppo, start = ex.fv('ppi_offset', 'int'), ex.fv('ppo_offset', 'int'), ex.fv('ppio_start', 'int')
+        st.env.update(__x__=x, __y__=y, __s_len__=s_len, __nsims__=nsims)
+        st.env['__s_writable__'] = (0, 1, 2)
+        c_locs = IntArr.new(ex, st, 'c_locs', length=nlocs)
+        s = SMem3.new(ex, st, 's')
+        t = ex.fv('time', 'time')
+        st.assume(SBool(z3.And(x.e >= 0, y.e >= 0, nsims.e >= 0, s_len.e >= 0, ppi.e >= 0, ppo.e >= 0, start.e >= 0, ppi.e + s_len.e <= nlocs.e, ppo.e + s_len.e <= nlocs.e)))
+        active = z3.And(y.e >= start.e, y.e < s_len.e, x.e < nsims.e, st.heap['c_locs'][ppo.e + y.e] >= 0)
+        ex.g = dict(active=active, s0=st.heap['s'], t=t)
+        st.env.update(s=s, c_locs=c_locs, time=t, ppi_offset=ppi, ppo_offset=ppo, ppio_start=start, cuda=CudaModel())
+        return st
+
+    def post(ex, st):
+        g = ex.g
+        s1, s0, act = st.heap['s'], g['s0'], g['active']
+        from pyvc.values import to_real
+        yield 'state element in range: s[0] <- s[2] (previous final value), s[1] <- time, s[2] <- s[8] (sampled capture)', \
+            SBool(z3.Implies(act, z3.And(s1[0] == s0[2], s1[1] == to_real(g['t']), s1[2] == s0[8])))
+        r = z3.Int('r')
+        yield 'frame: rows 3.. are untouched; an inactive thread writes nothing', \
+            SBool(z3.And(z3.ForAll([r], z3.Implies(r >= 3, s1[r] == s0[r])), z3.Implies(z3.Not(act), s1 == s0)))
+        ex.prove(st, 'mustfail:the kernel never writes s', SBool(s1 == s0), ex.fn, expect='refuted')
+    return Config('any thread (x, y)', {'post': post}, setup, None)
+
+
+def targets_ppo():
+    return [Target('wave_sim', 'ppo_to_ppi_gpu', [ppo_to_ppi_gpu_config()], kinds={'time': lambda n: STime(z3.Real(n))}, instantiate='fallback')]
+
+
 # ------------------------------------------------------------------------------------------------------------ cdiv
 def cdiv_config():
     def setup(ex):
@@ -349,7 +386,7 @@ def targets_assign():
 
 def targets_c06():
     from . import launcher_c
-    return targets_c13() + targets_assign() + [Target('__init__', 'cdiv', [cdiv_config()])] + launcher_c.targets() + targets_level()
+    return targets_c13() + targets_assign() + targets_ppo() + [Target('__init__', 'cdiv', [cdiv_config()])] + launcher_c.targets() + targets_level()
 
 
 def targets_c07():
